@@ -87,14 +87,21 @@ func (m *hotReloadManager) prepareDevServer() (*http.Server, bool, error) {
 		return nil, false, fmt.Errorf("parse error: %w", err)
 	}
 
+	// Create HTTP server with live reload support
+	mux := http.NewServeMux()
+
+	// Register static file routes. This can fail (a missing directory), so it comes before
+	// setupRoutes, whose last step replaces the type table that the compiled handlers of the
+	// server still running consult: a rejected edit must leave that server as it was.
+	if err := registerStaticRoutes(mux, module, m.filePath, m.port); err != nil {
+		return nil, false, err
+	}
+
 	// Use shared logic for route compilation/interpretation
 	useCompiler, _, wsServer, router, err := setupRoutes(module, m.filePath)
 	if err != nil {
 		return nil, false, err
 	}
-
-	// Create HTTP server with live reload support
-	mux := http.NewServeMux()
 
 	// Live reload SSE endpoint
 	mux.HandleFunc("/__livereload", m.handleLiveReload)
@@ -114,11 +121,6 @@ func (m *hotReloadManager) prepareDevServer() (*http.Server, bool, error) {
 			mux.HandleFunc(muxPattern, wsServer.HandleWebSocketWithPattern(path))
 			printInfo(fmt.Sprintf("WebSocket endpoint: ws://localhost:%d%s", m.port, path))
 		}
-	}
-
-	// Register static file routes
-	if err := registerStaticRoutes(mux, module, m.filePath, m.port); err != nil {
-		return nil, false, err
 	}
 
 	srv := &http.Server{
